@@ -530,6 +530,9 @@ func lenOf(v ssa.Value, coll ssa.Value) bool {
 	if !ok {
 		if cv, isC := Strip(v).(*ssa.Call); isC {
 			cl = cv
+		} else if rs := Roots(v, false); len(rs) == 1 && rs[0] != v {
+			// kept in a field of a small carrier type made for the loop (cursor.length = uint(len(x)))
+			return lenOf(rs[0], coll)
 		} else {
 			return false
 		}
@@ -841,6 +844,27 @@ func indexGuard(p *Prog, at ssa.Instruction, coll, idx ssa.Value) string {
 			}
 			if one == 1 && isSplitResult(coll) {
 				return "last element of a strings.Split result"
+			}
+		}
+	}
+	// the index computed by a helper of the package (cursor.next()): look at what it returns
+	if cl, ridx := CallOfValue(idx); cl != nil && cl.Call.StaticCallee() != nil && len(cl.Call.StaticCallee().Blocks) > 0 && PkgOf(cl.Call.StaticCallee()) == PkgOf(at.Parent()) {
+		if ridx < 0 {
+			ridx = 0
+		}
+		var vals []ssa.Value
+		for _, b := range cl.Call.StaticCallee().Blocks {
+			if ret, ok := b.Instrs[len(b.Instrs)-1].(*ssa.Return); ok && ridx < len(ret.Results) {
+				if _, isK := ConstInt(ret.Results[ridx]); !isK {
+					vals = append(vals, ret.Results[ridx])
+				}
+			}
+		}
+		if len(vals) == 1 {
+			if bo, ok := vals[0].(*ssa.BinOp); ok && bo.Op == token.REM && lenOf(bo.Y, coll) {
+				if n, ok := lowerBoundOnLen(at, coll); ok && n >= 1 && isUnsignedOrNonNeg(bo.X) {
+					return "index is a non-negative value modulo len (computed by " + cl.Call.StaticCallee().Name() + "), len > 0"
+				}
 			}
 		}
 	}
